@@ -54,6 +54,8 @@ func ghostSort(t string) Sort {
 }
 
 func (e *Env) evalBool(x *SExpr) string {
+	e.a.vc.inSpec++
+	defer func() { e.a.vc.inSpec-- }()
 	v := e.eval(x)
 	if v.Sort != SortBool {
 		e.fail("expected bool: %s (got %s)", x, v.Sort)
@@ -63,6 +65,8 @@ func (e *Env) evalBool(x *SExpr) string {
 }
 
 func (e *Env) evalInt(x *SExpr) string {
+	e.a.vc.inSpec++
+	defer func() { e.a.vc.inSpec-- }()
 	v := e.eval(x)
 	if v.Sort != SortInt {
 		e.fail("expected int: %s (got %s)", x, v.Sort)
@@ -516,7 +520,11 @@ func (e *Env) quant(x *SExpr) Val {
 	} else {
 		inner = and(guard, body)
 	}
-	return boolVal(buildQuant(x.Name, names, inner))
+	q := buildQuant(x.Name, names, inner)
+	if vc.inQuant == 1 {
+		q = addPatterns(q)
+	}
+	return boolVal(q)
 }
 
 // ---------------------------------------------------------------- calls
